@@ -45,7 +45,7 @@ BOUNDS = {
              'cond-const(N=2,M=2,B=3), cond-fresh(N=1,M=2,B=3; N=2,M=1,B=3), '
              'wide(N=2,M=1,B=10^6,K=4), parallel(N=2,M=2,B=3: each process serial or in a worker of the transport stub, symbolic); last call forced (update()), earlier '
              'force flags symbolic; deltas in [-3,3]',
-    'thorough': 'const(N<=3,M<=3,B<=6), adaptive(N=2,M=2,B=3), cond-const(N=3,'
+    'thorough': 'const(N=1,M=3,B=6; N=2,M=3,B=4; N=3,M=2,B=4; N=2,M=2,B=8), adaptive(N=1,M=3,B=4; N=2,M=2,B=3), cond-const(N=3,'
                 'M=2,B=4), cond-fresh(N=2,M=2,B=3), wide',
 }
 OUTSIDE = 'float time; processes created/deleted during the run (C10); real ' \
@@ -76,7 +76,7 @@ def jobs(tier):
         J.append(_cfg('parallel-N2', 2, 2, 3, 'const', 'none', tier,
                       parallel=True))
     else:
-        for N, M, B in ((1, 3, 6), (2, 3, 5), (3, 2, 4), (2, 2, 8)):
+        for N, M, B in ((1, 3, 6), (2, 3, 4), (3, 2, 4), (2, 2, 8)):
             J.append(_cfg('const-N%d-M%d-B%d' % (N, M, B), N, M, B, 'const',
                           'none', tier))
         J.append(_cfg('adaptive-N1', 1, 3, 4, 'adaptive', 'none', tier))
@@ -128,10 +128,10 @@ def goals(ctx, run):
             if q['call'] is None and q['cond'] is None:
                 ctx.goal('deferral across a call boundary')
         for c in p.ncalls:
-            if ctx.symbolic and c['force'] and \
-                    'truncated interval' not in ctx.goals and \
-                    ctx.solver.check_assuming(
-                        (c['start'] + c['asked'] > c['end']).s) == 'sat':
+            tr = c['start'] + c['asked'] > c['end']
+            if c['force'] and 'truncated interval' not in ctx.goals and (
+                    tr is True or (ctx.symbolic and tr is not False and
+                                   ctx.solver.check_assuming(tr.s) == 'sat')):
                 ctx.goal('truncated interval')
     counters = {}
     for (n, k), g, _ in run.applied:
@@ -177,6 +177,9 @@ def body(ctx, cfg):
     for (n, k), g, _ in run.applied:
         c = run.procs[n].ncalls[k]
         on_time.append(EQ(g, sched.expected_end(c)))
+        # ... which is also the end of the interval the update was computed
+        # for: start + the timestep handed to next_update
+        on_time.append(EQ(g, c['start'] + c['ts']))
         if n in last:
             in_order.append(k > last[n][0])
             in_order.append(g >= last[n][1])
